@@ -63,6 +63,20 @@ NEEDS = {
  'C08_4': ('a new requester of a build that has not succeeded yet re-arms it (`to_execute = true`), whatever is in flight', 'a build with two requesters, the second request arriving while the first execution is in progress (shared dependency, explicit + depended on)'),
  'C11_4': ('the aggregate keeps one `actual` bool per kind folded with `&=` (|= would be right)', 'one-shot; a service requested through an aggregate that also has a service-less dependency'),
  'C16_4': ('the watcher callback returns early on Modify(Name(From|To)) events, assuming a Name(Both) report always follows', 'a file moved into a declared directory from outside, or moved out of the declared paths'),
+ 'C01_5': ('the build actor handles Invalidated{Service} in a separate arm that does nothing', 'watch mode; a build depending on a service whose own build dependency is rebuilding; the build becoming out of date in that window'),
+ 'C02_5': ('eq_current_state accepts `modified <= saved_modified` instead of equality', 'a declared file replaced by different content with an OLDER mtime (mv of a backup, cp -p, rsync -t, tar x)'),
+ 'C04_5': ('the aggregate sends the immediate Ok only to late requesters (`else if` after the first-requester branch)', 'an aggregate with `dependencies: []` anywhere below a requested target'),
+ 'C05_5': ('a cancelled build writes the PREVIOUS record back ("interrupted is not failed")', 'a previous successful record; a rebuild triggered by deleted or edited outputs (inputs unchanged) interrupted by SIGINT/SIGTERM; next invocation'),
+ 'C09_5': ('the "X.output must name a build" check moved before the recursion as a lookup in the not-yet-visited map', 'X resolved before the target holding X.output is entered (diamond, request order, imported project)'),
+ 'C10_5': ('the termination arm `take()`s the cancellation sender — which is also the "no build in flight" flag', 'watch mode; the target invalidated during its build; SIGINT/SIGTERM before the build ends'),
+ 'C12_5': ('extension-filtered output resources merged for cleaning: paths concatenated, extension sets united', 'a target with two filtered output resources on different roots and different extension sets; a file under one root matching only the other filter'),
+ 'C13_5': ('Resources::extend skips an inherited files path that is already listed, comparing paths only (not the extension filter)', 'two file resources sharing a path with different filters, the later arriving through X.output'),
+ 'C14_5': ('import-key check moved into add_project, after the already-visited early return', 'an import edge to an already visited directory under a wrong key (self-import, closing edge of a cycle)'),
+ 'C15_5': ('`path.is_file()` replaced by `entry.file_type().is_file()` (symlinks no longer followed)', 'a symlink to a regular file inside a listed directory or listed directly'),
+ 'C17_5': ('after its script a target with inputs waits until NO build script runs anywhere before computing its checksums (hence before acknowledging)', 'a build with inputs that has a dependent, next to an unrelated build still running'),
+ 'C18_5': ('checksums files written under the `.zinoma` of the ENTRY project of the invocation (new TargetMetadata field)', 'two projects, one importing the other; invocations from different entry projects'),
+ 'C19_5': ('list_all_available_target_names iterates the root project and its direct imports only', 'a target of a project imported by an imported project, named on the command line'),
+ 'C20_5': ('the aggregate sends the immediate Ok only to late requesters (`else if`)', 'an empty aggregate requested directly or inside another aggregate'),
  'C14_3': ('import-key check moved into the recursive loader: once per project directory (first edge), not once per import edge', 'a project reached by two import edges, a later one under a wrong key (cycle back to the root: deterministic; diamond: order-dependent)'),
  'C15_3': ('a listed path lexically nested under another listed path of the same resource is not walked', 'a symlinked directory listed next to its parent, a `..` path, or a path inside .zinoma under a listed path'),
  'C16_3': ('watcher ignores the single-path halves of a rename (From / To events)', 'watch mode; a rename with only one end under the watcher: move in, move out, move between targets, temp file kept outside'),
